@@ -123,6 +123,9 @@ CHECKS = {
  'C40': (['asan'], 'sanitizer monitor (ASan+UBSan+LSan) + conservation monitor on hook H2 (live Basic objects: constructed minus destroyed must return to zero after the second pass of each program in the same process); hangs re-run alone before they count',
          'The mixed API workloads of C03 (every node class, sets, logic, matrix expressions, series, solve, polynomials, printers, parser, serialisation, lambda evaluators), each executed twice per process.',
          'Astronomically large literals under size-sensitive functions (gamma, primorial, ...) are replaced by small ones: their cost is a resource question, not memory safety.', 'DESIGN.md 3/C40'),
+ 'C18': (['asan'], 'sanitizer monitor (ASan+UBSan, signals, confirmed hangs) over grammar-seeded and mutated parser inputs + differential monitor: one reused Parser / SbmlParser object vs a fresh parser on every input of a sequence',
+         'Corpus = str() / sbml() of random expressions over every node class + 27 hand-written seeds; 1-6 mutations (token insert / delete / replace / duplicate / swap, 500-deep nests, 400-digit numbers, huge exponents) and raw bytes; sequences of 6 inputs with valid and invalid interleaved; parse (convert_xor on/off) and parse_sbml.',
+         'Mutation-based, not coverage-guided (the libFuzzer configuration was not built); parse_old is not part of the property.', 'DESIGN.md 3/C18'),
 }
 
 def main():
